@@ -771,6 +771,20 @@ func (x *FnExec) rangeIndexBounds(fr *Frame, li *loopInfo, phis map[*ssa.Phi]Val
 	return x.tc.And(out...)
 }
 
+// staticDebugName: does some DebugRef of fn bind the source identifier `name` to the SSA value val?
+func staticDebugName(fn *ssa.Function, name string, val ssa.Value) bool {
+	for _, b := range fn.Blocks {
+		for _, in := range b.Instrs {
+			if d, ok := in.(*ssa.DebugRef); ok && !d.IsAddr && d.X == val {
+				if id, ok := d.Expr.(*ast.Ident); ok && id.Name == name {
+					return true
+				}
+			}
+		}
+	}
+	return false
+}
+
 // countingLowerBound: phi of signed integer type whose edges are all integer constants or phi + positive constant
 // (at least one of each); returns the least constant.
 func countingLowerBound(phi *ssa.Phi) *big.Int {
@@ -1020,6 +1034,19 @@ func (x *FnExec) execInstr(fr *Frame, in ssa.Instruction, st *State, g *Term) *T
 		fr.vals[v] = fv
 	case *ssa.MakeMap:
 		fr.vals[v] = x.makeMap(fr, v, st)
+		if fr.top && x.top != nil {
+			// a fresh map named in a mapassert starts with ghost(mapupd, m) == 0
+			for _, ma := range x.top.MapAsserts {
+				if staticDebugName(fr.fn, ma.Callee, v) {
+					gt := x.ghostTypes["mapupd"]
+					if gt == nil {
+						gt = types.NewNamed(types.NewTypeName(0, nil, "ghost_mapupd", nil), types.Typ[types.Int], nil)
+						x.ghostTypes["mapupd"] = gt
+					}
+					x.store(st, &Place{kind: pkHeap, ref: fr.vals[v].(*Term), obj: gt}, x.tc.Int(0))
+				}
+			}
+		}
 	case *ssa.MapUpdate:
 		x.mapUpdate(fr, v, st, g)
 	case *ssa.Range:
@@ -1701,6 +1728,8 @@ func (x *FnExec) mapLookup(fr *Frame, v *ssa.Lookup, st *State, g *Term) Value {
 	rs := x.refSort()
 	in := tc.And(tc.Not(tc.Eq(m, x.refConst(0))), tc.Select(tc.Select(st.getHeap(dom, SArr(rs, SArr(ks, SBool))), m), k))
 	val := x.mapValHeapRead(st, mt, m, k)
+	// a stored map value is a well-formed value of its type (slice headers in range, references allocated)
+	x.inputFacts(st, val, mt.Elem())
 	zero := x.zeroVal(mt.Elem())
 	res := x.iteVal(in, val, zero)
 	if v.CommaOk {
@@ -1717,6 +1746,30 @@ func (x *FnExec) mapUpdate(fr *Frame, v *ssa.MapUpdate, st *State, g *Term) {
 	k := x.asComparable(fr.val(v.Key)).(*Term)
 	rs := x.refSort()
 	x.oblige("NIL", "assignment to entry in nil map", g, tc.Not(tc.Eq(m, x.refConst(0))), v.Pos())
+	if fr.top && x.top != nil {
+		bumped := false
+		for _, ma := range x.top.MapAsserts {
+			if !staticDebugName(fr.fn, ma.Callee, v.Map) {
+				continue
+			}
+			if bumped {
+				unsupp("two mapassert clauses for the same map %s: join them with &&", ma.Callee)
+			}
+			bumped = true
+			ev := x.specEnv(fr, st, x.entry, x.top)
+			ev.vars["key"] = TV{fr.val(v.Key), v.Key.Type()}
+			ev.vars["value"] = TV{fr.val(v.Value), v.Value.Type()}
+			x.oblige("ASSERT", "at update of "+ma.Callee+": "+ma.Cl.Text, g, ev.evalBool(ma.Cl.E), v.Pos())
+			gt := x.ghostTypes["mapupd"]
+			if gt == nil {
+				gt = types.NewNamed(types.NewTypeName(0, nil, "ghost_mapupd", nil), types.Typ[types.Int], nil)
+				x.ghostTypes["mapupd"] = gt
+			}
+			pl := &Place{kind: pkHeap, ref: m, obj: gt}
+			cur := x.load(st, pl).(*Term)
+			x.store(st, pl, x.intAdd(cur, tc.Int(1)))
+		}
+	}
 	dh := st.getHeap(dom, SArr(rs, SArr(ks, SBool)))
 	was := tc.Select(tc.Select(dh, m), k)
 	st.setHeap(dom, tc.Store(dh, m, tc.Store(tc.Select(dh, m), k, tc.True())))
